@@ -40,6 +40,10 @@ def notif_text(k):
     return '<notification xmlns="%s"%s><eventTime>%s</eventTime><ev>n%d-é</ev></notification>' % (NOTIF_NS, big_root_attrs(k), event_time(k), k)
 
 
+def tiny_notif_text(k):
+    return '<notification xmlns="%s"><eventTime>2020-01-01T00:00:00Z</eventTime><e>%d</e></notification>' % (NOTIF_NS, k)
+
+
 def reply_text(r):
     """Raw XML of what a Manager call returned (RPCReply, or NCElement for transforming profiles)."""
     x = getattr(r, 'xml', None)
@@ -109,7 +113,7 @@ def make_server(sc, handler, **kw):
 
 def connect(srv, sc, **kw):
     tr = sc.get('transport', 'unix')
-    dp = {'name': sc.get('profile', 'default')}
+    dp = dict(sc.get('device_params') or {}, name=sc.get('profile', 'default'))
     if tr == 'unix':
         return manager.connect_uds(path=srv.path, device_params=dp, **kw)
     if tr == 'tls':
@@ -222,6 +226,21 @@ def run_traffic(sc):
             flush(srv)
         return []
 
+    if sc.get('slow_handler'):
+        # a user-supplied device handler (public extension point) whose hooks take a little time: whatever the library does between
+        # two of its hooks, other threads get to run there
+        from ncclient.devices.default import DefaultDeviceHandler
+        hrng = random.Random(sc.get('seed', 0) + 1)
+
+        class SlowHandler(DefaultDeviceHandler):
+            def get_xml_extra_prefix_kwargs(self):
+                time.sleep(hrng.choice([0, 0.002, 0.01, 0.02]))
+                return DefaultDeviceHandler.get_xml_extra_prefix_kwargs(self)
+
+            def get_xml_base_namespace_dict(self):
+                time.sleep(hrng.choice([0, 0.002]))
+                return DefaultDeviceHandler.get_xml_base_namespace_dict(self)
+        sc = dict(sc, device_params={'handler': SlowHandler})
     srv = make_server(sc, handler)
     res = {'calls': [], 'notifs': [], 'connect': None}
     stop_flusher = threading.Event()
@@ -264,10 +283,26 @@ def run_traffic(sc):
                 return r
             sess.get_listener_instance = slow_get
             start_barrier = threading.Barrier(threads)
+        if sc.get('slow_first_callback'):
+            # an application listener that is slow ONCE (it logs, resolves a name, ...): meanwhile the peer's output piles up in the socket,
+            # and the next transport read hands over as much as the transport's read size allows
+            from ncclient.transport.session import SessionListener as _SL
+
+            class SlowOnce(_SL):
+                done = False
+
+                def callback(self, root, raw):
+                    if not SlowOnce.done:
+                        SlowOnce.done = True
+                        time.sleep(sc['slow_first_callback'])
+
+                def errback(self, ex):
+                    pass
+            sess.add_listener(SlowOnce())
         if sc.get('burst'):
             # a backlog of notifications nobody has taken yet (replay / slow consumer), before any request is issued
             k = sc['burst']
-            texts = [notif_text(state['notifs_sent'] + i + 1) for i in range(k)]
+            texts = [(tiny_notif_text if sc.get('tiny') else notif_text)(state['notifs_sent'] + i + 1) for i in range(k)]
             if sc.get('mixed_sizes'):
                 # every fourth notification is large (a full routing table, a config-change with the configuration in it)
                 texts = [t.replace('</notification>', '<detail>%s</detail></notification>' % ('<r a="1">x</r>' * 12000)) if i % 4 == 1 else t for i, t in enumerate(texts)]
@@ -278,6 +313,13 @@ def run_traffic(sc):
             time.sleep(0.3)
         fl = threading.Thread(target=flusher, daemon=True)
         fl.start()
+        if sc.get('resubscribe'):
+            # the application (re)subscribes while notifications it has not taken yet are queued: they stay queued
+            try:
+                m.create_subscription()
+                res['resubscribe'] = 'ok'
+            except Exception as e:
+                res['resubscribe'] = 'exc:' + exc_name(e)
         calls = []
         clock = threading.Lock()
 
@@ -573,10 +615,24 @@ def run_lifecycle(sc):
             if calls['closed_done']:
                 calls['after_close'] += 1
     calls['closed_done'] = False
+
+    class OneShot(SessionListener):
+        """An application listener that takes itself off the session when it hears of an error (and looks the registry up on the way)."""
+        def __init__(self, sess):
+            self.sess = sess
+
+        def callback(self, root, raw):
+            pass
+
+        def errback(self, ex):
+            self.sess.get_listener_instance(OneShot)
+            self.sess.remove_listener(self)
     try:
         m = connect(srv, sc, timeout=sc.get('connect_timeout', 3))
         sess = m._session
         sess.add_listener(Counting())
+        if sc.get('oneshot_listener'):
+            sess.add_listener(OneShot(sess))
         inflight = {}
         if sc.get('inflight'):
             m.timeout = 1.0
